@@ -6,6 +6,16 @@
 From Teleport Require Import Base.Bytes Base.Outcome Model.Bsc.
 Local Open Scope N_scope.
 
+(** * Hex literals (the case files carry byte strings as hex text; parsing a Coq string literal is much
+    cheaper than a list-of-bytes literal) *)
+Definition hexval (a : ascii) : N := let n := N_of_ascii a in if n <? 58 then n - 48 else n - 87.
+Fixpoint unhex (s : string) : bytes :=
+  match s with
+  | String a (String b r) =>
+      match Byte.of_N (16 * hexval a + hexval b) with Some x => x | None => x00 end :: unhex r
+  | _ => []
+  end.
+
 (** * Observations *)
 Record ostate := {
   o_exists : bool;
@@ -52,8 +62,8 @@ Definition opt_eqb {A} (eqb : A -> A -> bool) (a b : option A) : bool :=
   match a, b with Some x, Some y => eqb x y | None, None => true | _, _ => false end.
 Definition kv_eqb (a b : bytes * bytes) : bool := bytes_eqb (fst a) (fst b) && bytes_eqb (snd a) (snd b).
 Definition consv_eqb (a b : N * height * bytes) : bool :=
-  (fst (fst a) =? fst (fst b)) && key_eqb (snd (fst a)) (snd (fst b)) && bytes_eqb (snd a) (snd b).
-Definition conse_eqb (a b : bytes * (N * height * bytes)) : bool := bytes_eqb (fst a) (fst b) && consv_eqb (snd a) (snd b).
+  key_eqb (snd (fst a)) (snd (fst b)) && (fst (fst a) =? fst (fst b)) && bytes_eqb (snd a) (snd b).
+Definition conse_eqb (a b : bytes * (N * height * bytes)) : bool := consv_eqb (snd a) (snd b) && bytes_eqb (fst a) (fst b).
 
 Definition ostate_eqb (a b : ostate) : bool :=
   Bool.eqb (o_exists a) (o_exists b) && opt_eqb Nat.eqb (o_head a) (o_head b)
@@ -185,7 +195,8 @@ Fixpoint in_window_aux (later_ok : N -> bool) (n limit : N) (ch : list gentry) :
   end.
 Definition in_window (n limit : N) (ch : list gentry) : list gentry := in_window_aux (fun _ => true) n limit ch.
 
-Definition cons_has (o : ostate) (k : height) : bool := existsb (fun e => bytes_eqb (fst e) (cons_key k)) (o_cons o).
+Definition cons_has (o : ostate) (k : height) : bool :=
+  let ck := cons_key k in existsb (fun e => bytes_eqb (fst e) ck) (o_cons o).
 
 (** true |a - b| < a / 256 and b >= 5000 and b <= 2^63 - 1, evaluated with the code's casts only when the
     parent's limit does not fit an int64 (only a creation-time header can carry such a limit) *)
